@@ -31,9 +31,9 @@ CFG = {
         "golden file with runs: Spec.decode gives the documented set": r"^spec_decode hex:3b30.* => ok len=200100 eh=2caf1734041d0c65 rest=0 same=false",
     },
     "gaps": [
-        'the full statement (C06_statement: Spec.decode bs = some (S, rest) -> both decoders return a WF value with elems = S and the same rest) is NOT proved',
-        "proved: C06_standard_partial (the decoders invert the reference encoder on the standard encoding of any WF value's elements, with arbitrary trailing bytes; modulo Kernel.bitmap_toArray) and C06_checked_wf_partial (whatever the checked decoder accepts is WF; modulo Kernel.runStore_wf)",
-        "streams with run chunks, the offset-less header, non-canonical chunk kinds: covered by the correspondence against the independent conformant encoder and the driver's run-time !SPEC cross-check (elems (decode s) = Spec.decode s) only; need the Store.insert_range / BitmapStore kernel lemmas",
+        'no proof gap: the full statement is proved (C06 : C06_statement): for every byte string bs (all entries < 256) with Spec.decode bs = some (S, rest), deserialize chk dbg bs = ok (b, rest) for both decoders and both build configurations, with Bitmap.WF b and elems b = S; covers both cookies, streams with and without offset header, array / bitset / run chunks in any position (Lemmas/DecodeSpec.lean: decodeHeader_spec, decodeContainers_spec, decodeStore_spec; run chunks via Store.insertRange_spec + Container.ensureCorrectStore_spec)',
+        'corollaries: C06_unique / C06_agree (the result is the canonical representation of S, all four decoder configurations agree), C06_standard (decoders invert Spec.encode), C06_checked_wf',
+        'the byte-string hypothesis (entries < 256) is needed only because the model represents bytes as Nat: with an entry 256 both little-endian readers produce the chunk key 65536 (example in Props/C06.lean); it is not a restriction on real inputs',
         'the 64-bit portable format is handled by the treemap family',
     ],
     "level_text": "Lean 4 theorem that every stream accepted by the strict reference decoder Spec.decode (written from the "
@@ -42,6 +42,6 @@ CFG = {
                   "exactly that set; model tied to the Rust source by differential correspondence on conformant streams "
                   "from an independent encoder.",
     "level_note": "Trusted: Lean kernel; SpecCodec.lean as the reading of RoaringFormatSpec (adjacent runs accepted, declared "
-                  "cardinalities and offsets must be exact); model mirrors serialization.rs (correspondence only). Partial: "
-                  "see proof_gaps. 32-bit half only.",
+                  "cardinalities and offsets must be exact); model mirrors serialization.rs (correspondence only). "
+                  "32-bit half only.",
 }
